@@ -1,7 +1,7 @@
 (* Proofs for C07 (model/Transform.v, model/TransformSem.v). *)
 From Coq Require Import List ZArith NArith String Ascii Bool Arith Lia Permutation.
 Import ListNotations.
-From Dagrt Require Import Lang LangProofs Sched Transform TransformSem.
+From Dagrt Require Import Lang LangProofs Sched Transform TransformSem TransformSide TransformBasics.
 
 (* ------------------------------------------------------------------------------------ *)
 (* the traced semantics computes Lang's values                                            *)
@@ -11,6 +11,58 @@ Section Proj.
 
   Lemma call1t_snd f kw vs : snd (call1t F f kw vs) = call1 F f kw vs.
   Proof. unfold call1t, call1. destruct (split_at _ vs) as [pos kws]. reflexivity. Qed.
+
+  (* Lang.eval's inner fold of the strict nodes as a function of its own *)
+  Fixpoint nfold_e (o : nop) (s : store) (acc : nacc) (l : list expr) : list var * rs nacc :=
+    match l with
+    | [] => ([], Ok acc)
+    | e :: l' =>
+        let (r, v) := eval F s e in
+        match v with
+        | Err u => (r, Err u)
+        | Ok x =>
+            match nstep o acc x with
+            | None => (r, Err false)
+            | Some acc' => let (r2, res) := nfold_e o s acc' l' in (r ++ r2, res)
+            end
+        end
+    end.
+
+  Lemma eval_nary_e s o l :
+    is_lazy o = false ->
+    eval F s (ENary o l) = let (r, a) := nfold_e o s (ninit o) l in (r, rbind a (nfinish F o)).
+  Proof.
+    intros Ho.
+    assert (Hgo : forall acc,
+               (fix go (acc : nacc) (l : list expr) : list var * rs nacc :=
+                  match l with
+                  | [] => ([], Ok acc)
+                  | e :: l' =>
+                      let (r, v) := eval F s e in
+                      match v with
+                      | Err u => (r, Err u)
+                      | Ok x =>
+                          match nstep o acc x with
+                          | None => (r, Err false)
+                          | Some acc' => let (r2, res) := go acc' l' in (r ++ r2, res)
+                          end
+                      end
+                  end) acc l = nfold_e o s acc l).
+    { induction l as [|a l IH]; intros acc; [reflexivity|]. cbn [nfold_e].
+      destruct (eval F s a) as [r [x|u]]; [|reflexivity]. destruct (nstep o acc x); [|reflexivity].
+      now rewrite IH. }
+    destruct o; try discriminate; cbn [eval]; rewrite Hgo; reflexivity.
+  Qed.
+
+  Lemma nfold_snd s o l :
+    Forall (fun e => snd (evalt F s e) = snd (eval F s e)) l ->
+    forall acc, snd (nfold_t F o s acc l) = snd (nfold_e o s acc l).
+  Proof.
+    induction 1 as [|a l Ha _ IH]; intros acc; [reflexivity|]. cbn [nfold_t nfold_e].
+    destruct (evalt F s a) as [r v], (eval F s a) as [r' v']. cbn in Ha. subst v'.
+    destruct v as [x|u]; [|reflexivity]. destruct (nstep o acc x) as [acc'|]; [|reflexivity].
+    specialize (IH acc'). destruct (nfold_t F o s acc' l), (nfold_e o s acc' l). cbn in *. now subst.
+  Qed.
 
   Lemma evalt_snd s e : snd (evalt F s e) = snd (eval F s e).
   Proof.
@@ -81,37 +133,15 @@ Section Proj.
         destruct (rbind v _) as [[|]|u]; cbn; try reflexivity.
         match goal with |- snd (let (_, _) := ?A in _) = snd (let (_, _) := ?B in _) =>
           destruct A, B end. cbn in *. now subst. }
-      assert (Hgo : forall l, Forall (fun e => snd (evalt F s e) = snd (eval F s e)) l ->
-                snd ((fix go (l : list expr) : list call * rs (list val) :=
-                        match l with
-                        | [] => ([], Ok [])
-                        | a :: l' =>
-                            let (r, v) := evalt F s a in
-                            match v with
-                            | Err u => (r, Err u)
-                            | Ok x => let (r2, vs) := go l' in (r ++ r2, rmap (cons x) vs)
-                            end
-                        end) l)
-                = snd ((fix go (l : list expr) : list var * rs (list val) :=
-                          match l with
-                          | [] => ([], Ok [])
-                          | a :: l' =>
-                              let (r, v) := eval F s a in
-                              match v with
-                              | Err u => (r, Err u)
-                              | Ok x => let (r2, vs) := go l' in (r ++ r2, rmap (cons x) vs)
-                              end
-                          end) l)).
-      { induction 1 as [|a l' Ha _ IHl]; [reflexivity|].
-        destruct (evalt F s a) as [r v], (eval F s a) as [r' v']. cbn in Ha. subst v'.
-        destruct v as [x|u]; cbn; try reflexivity.
-        match goal with |- snd (let (_, _) := ?A in _) = snd (let (_, _) := ?B in _) =>
-          destruct A, B end. cbn in *. now subst. }
-      destruct o; try (apply Hand; exact IH); try (apply Hor; exact IH);
-        specialize (Hgo l IH);
-        match goal with |- snd (let (_, _) := ?A in _) = snd (let (_, _) := ?B in _) =>
-          destruct A as [r vs], B as [r' vs'] end; cbn in Hgo; subst vs';
-        destruct vs as [vs|u]; cbn; try reflexivity.
-      pose proof (call1t_snd f kw vs) as Hc. destruct (call1t F f kw vs). cbn in *. now subst.
+      assert (Hfin : forall o acc, snd (nfinish_t F o acc) = nfinish F o acc).
+      { intros o0 acc. destruct o0, acc; try reflexivity. cbn [nfinish_t nfinish]. apply call1t_snd. }
+      destruct (is_lazy o) eqn:Ho.
+      + destruct o; try discriminate; [apply Hand; exact IH|apply Hor; exact IH].
+      + change (snd (evalt F s (ENary o l)) = snd (eval F s (ENary o l))).
+        rewrite (evalt_nary F s o l Ho), (eval_nary_e s o l Ho).
+        pose proof (nfold_snd s o l IH (ninit o)) as Hg.
+        destruct (nfold_t F o s (ninit o) l) as [r a], (nfold_e o s (ninit o) l) as [r' a']. cbn in Hg. subst a'.
+        destruct a as [acc|u]; cbn; [|reflexivity].
+        pose proof (Hfin o acc) as Hf. destruct (nfinish_t F o acc). cbn in *. now subst.
   Qed.
 End Proj.
